@@ -126,4 +126,105 @@ theorem inherit_get (bases : List (Mgr ν)) (e : ν) :
   show bases.foldl (fun acc b => osetAddAll acc (b e)) [] = _
   rw [inherit_fold, osetAddAll_eq]; rfl
 
+
+/-! ### removal -/
+
+theorem firstOccFrom_cons_filter (h : H) (s l : List H) :
+    (firstOccFrom (h :: s) l).filter (fun x => x != h) = (firstOccFrom s l).filter (fun x => x != h) := by
+  induction l generalizing s with
+  | nil => rfl
+  | cons x xs ih =>
+    simp only [firstOccFrom]
+    by_cases hxs : x ∈ s
+    · have : x ∈ h :: s := List.mem_cons_of_mem _ hxs
+      simp only [hxs, this, if_true]; exact ih s
+    · by_cases hxh : x = h
+      · subst hxh
+        simp [hxs]
+      · have hn : x ∉ h :: s := by simp [hxh, hxs]
+        simp only [hxs, hn, if_false, List.filter_cons]
+        have hb : (x != h) = true := by simp [hxh]
+        simp only [hb, if_true]
+        congr 1
+        rw [firstOccFrom_congr (x :: h :: s) (h :: x :: s) xs (by intro a; simp only [List.mem_cons]; constructor <;> (rintro (h1 | h1 | h1) <;> simp [h1]))]
+        exact ih (x :: s)
+
+theorem firstOccFrom_filter (h : H) (s l : List H) :
+    firstOccFrom s (l.filter (fun x => x != h)) = (firstOccFrom s l).filter (fun x => x != h) := by
+  induction l generalizing s with
+  | nil => rfl
+  | cons x xs ih =>
+    by_cases hxh : x = h
+    · subst hxh
+      simp only [List.filter_cons, bne_self_eq_false, Bool.false_eq_true, if_false, firstOccFrom]
+      rw [ih s]
+      by_cases hs : x ∈ s
+      · simp [hs]
+      · simp only [hs, if_false, List.filter_cons, bne_self_eq_false, Bool.false_eq_true]
+        exact (firstOccFrom_cons_filter x s xs).symm
+    · have hb : (x != h) = true := by simp [hxh]
+      simp only [List.filter_cons, hb, if_true, firstOccFrom]
+      by_cases hs : x ∈ s
+      · simp only [hs, if_true]; exact ih s
+      · simp only [hs, if_false, List.filter_cons, hb, if_true]
+        rw [ih (x :: s)]
+
+theorem firstOcc_append_singleton (l : List H) (h : H) : firstOcc (l ++ [h]) = osetAdd (firstOcc l) h := by
+  simp only [firstOcc, firstOccFrom_append, List.nil_append, firstOccFrom, osetAdd]
+  by_cases hm : h ∈ firstOccFrom [] l <;> simp [hm]
+
+theorem firstOcc_idem (l : List H) (hn : l.Nodup) : firstOcc l = l := by
+  have : ∀ s : List H, (∀ a ∈ l, a ∉ s) → firstOccFrom s l = l := by
+    induction l with
+    | nil => intro s _; rfl
+    | cons x xs ih =>
+      intro s hs
+      have hx : x ∉ s := hs x (by simp)
+      simp only [firstOccFrom, hx, if_false]
+      congr 1
+      have hn' := List.nodup_cons.1 hn
+      apply ih hn'.2
+      intro a ha
+      simp only [List.mem_cons, not_or]
+      exact ⟨fun c => hn'.1 (c ▸ ha), hs a (by simp [ha])⟩
+  exact this [] (by simp)
+
+/-- the manager after any history = first occurrences of the net registrations -/
+theorem applyAll_get (m : Mgr ν) (ops : List (Op ν)) (e : ν) (acc : List H) (h0 : m e = firstOcc acc) :
+    (m.applyAll ops) e = firstOcc (netRegs e acc ops) := by
+  induction ops generalizing m acc with
+  | nil => simpa [Mgr.applyAll, netRegs] using h0
+  | cons op ops ih =>
+    simp only [Mgr.applyAll, List.foldl_cons] at ih ⊢
+    cases op with
+    | add e' h =>
+      simp only [netRegs]
+      apply ih
+      simp only [Mgr.applyOp, Mgr.addListener]
+      by_cases he : e' = e
+      · subst he; simp [h0, firstOcc_append_singleton]
+      · have : ¬ e = e' := fun c => he c.symm
+        simp [he, this, h0]
+    | del e' h =>
+      simp only [netRegs]
+      apply ih
+      simp only [Mgr.applyOp, Mgr.delListener, osetDiscard]
+      by_cases he : e' = e
+      · subst he; simp only [if_true, h0, firstOcc]; exact (firstOccFrom_filter h [] acc).symm
+      · have : ¬ e = e' := fun c => he c.symm
+        simp [he, this, h0]
+    | clear e' =>
+      simp only [netRegs]
+      apply ih
+      simp only [Mgr.applyOp, Mgr.clear]
+      by_cases he : e' = e
+      · subst he; simp [firstOcc, firstOccFrom]
+      · have : ¬ e = e' := fun c => he c.symm
+        simp [he, this, h0]
+
+theorem applyAll_nodup (m : Mgr ν) (ops : List (Op ν)) (e : ν) (hn : (m e).Nodup) :
+    ((m.applyAll ops) e).Nodup := by
+  rw [applyAll_get m ops e (m e) (firstOcc_idem _ hn).symm]
+  exact firstOccFrom_nodup _ _
+
 end SpyneModel.Events
